@@ -39,11 +39,16 @@ def render_dq(v, raw_newline=True):
 
 def render_sq(v):
     out = ["'"]
-    for ch in v:
+    for i, ch in enumerate(v):
         if ch == "'":
             out.append("\\'")
         elif ch == "\\":
-            out.append("\\\\")
+            # inside '...' a backslash in front of an ordinary character is itself an ordinary character: written
+            # unescaped at even positions, doubled at odd ones, so that both spellings of the same value occur
+            if i % 2 == 0 and i + 1 < len(v) and v[i + 1] not in "\\'\n":
+                out.append("\\")
+            else:
+                out.append("\\\\")
         else:
             out.append(ch)
     out.append("'")
@@ -126,7 +131,7 @@ BOOL_OK = ["true", "false", "yes", "no", "on", "off", "True", "FALSE", "Yes", "o
 BOOL_BAD = ["0", "1", "tru", "", "yess", "nope"]
 STR_POOL = ["a", "hello", "x y", "", "a\"b", "back\\slash", "it's", "new\nline", "tab\there", "#nocomment", "//no",
             "/*no*/", "{brace}", "a,b", "(p)", "k=v", "+=", "$", "${", "$HOME", "\xe9t\xe9", "\x01\x7f", "a|b", "'", "\\",
-            "trailing ", " leading", "semi;colon", "0", "true", "very long " * 8]
+            "trailing ", " leading", "C:\\dir", "^\\d+\\.$", "semi;colon", "0", "true", "very long " * 8]
 
 sep = st.sampled_from([" ", " ", " ", "\n", "\n", "  ", "\t", " \n ", "\n\n", " \t "])
 form = st.sampled_from(["bare", "bare", "dq", "sq", "dqn"])
@@ -170,7 +175,7 @@ def name_tok(draw, name, ctxflags):
 
 
 UNKNOWN_NAMES = ["unk", "zz9", "nosuch", "Unknown_1"]
-TITLES = ["a", "b", "t1", "A", "x y", "it's", "q\"uote", "b\\s", "", "1", "a|b", "k=v"]
+TITLES = ["a", "b", "t1", "A", "x y", "it's", "q\"uote", "b\\s", "c:\\t", "", "1", "a|b", "k=v"]
 # titles are drawn with a bias towards repeats, also repeats that differ in letter case only
 TITLES_W = TITLES + ["a", "A", "a", "A", "b", "B", "t1", "T1"]
 KEYS = ["k1", "key", "another-key", "K", "k.2"]
